@@ -25,6 +25,13 @@ fn main() {
     quiet_panics();
     match args.pos[0].as_str() {
         "record" => record(&args),
+        "replay-calls" => {
+            let mut s = api::Sess::new(&args.get("out", "trace.ndjson"));
+            replay::calls(&mut s, &args.pos[1], args.num("seed", 1));
+            let panics = s.panics;
+            let (n, counts) = s.log.finish();
+            println!("{}", json!({"scenario": "replay-calls", "events": n, "counts": counts, "panics": panics}));
+        }
         "replay-files" => {
             let mut s = api::Sess::new(&args.get("out", "trace.ndjson"));
             replay::files(&mut s, &args.pos[1], args.num("seed", 1));
